@@ -264,7 +264,7 @@ func VerifC17_q_collectOnlyDead() {
 }
 
 
-// BOUND: one vanished or running container (arbitrary runtime answer) whose leftovers are any subset of {network state file, port file, ip file}; gc_dirs in the default order (state dir, then its port sub-directory) or with the port directory first; the port cleaner behaves like galaxy's cleanIPtables: it finds the mappings to remove only through the container's port file; up to two GC rounds
+// BOUND: one vanished or running container (arbitrary runtime answer) whose leftovers are any subset of {network state file, port file (well-formed or truncated, so that the port cleaner fails every time), ip file}; gc_dirs in the default order (state dir, then its port sub-directory) or with the port directory first; the port cleaner behaves like galaxy's cleanIPtables: it finds the mappings to remove only through the container's port file; up to two GC rounds
 // ASSUME: C17: the port-mapping cleaner is a harness model of Galaxy.cleanIPtables (reads and removes the container's port file, removes that container's rules), the iptables side is covered by C14
 func VerifC17_q_portMappingCollected() {
 	containerd := nondetBool()
@@ -282,8 +282,14 @@ func VerifC17_q_portMappingCollected() {
 	if hasState {
 		ioutil.WriteFile(filepath.Join(stateDir, "c1"), []byte("[]"), 0o644)
 	}
+	portBroken := false
 	if hasPort {
-		ioutil.WriteFile(filepath.Join(portDir, "c1"), []byte(`[{"hostPort":8080}]`), 0o644)
+		portBroken = nondetBool() // a port file truncated by a crash or a full disk: the cleaner cannot parse it
+		if portBroken {
+			ioutil.WriteFile(filepath.Join(portDir, "c1"), []byte(`[{"hostPort":80`), 0o644)
+		} else {
+			ioutil.WriteFile(filepath.Join(portDir, "c1"), []byte(`[{"hostPort":8080}]`), 0o644)
+		}
 	}
 	if hasIP {
 		ioutil.WriteFile(filepath.Join(ipDir, "172.16.0.9"), []byte("c1"), 0o644)
@@ -291,8 +297,12 @@ func VerifC17_q_portMappingCollected() {
 	rulesInstalled := hasPort // a container with a port file has host-port rules in the nat table
 	cleanPort := func(id string) error {
 		// like Galaxy.cleanIPtables: the port file tells which rules belong to the container
-		if _, err := ioutil.ReadFile(filepath.Join(portDir, id)); err != nil {
+		data, err := ioutil.ReadFile(filepath.Join(portDir, id))
+		if err != nil {
 			return nil
+		}
+		if len(data) == 0 || data[len(data)-1] != ']' {
+			return fmt.Errorf("failed to read ports: unexpected end of JSON input") // and the file stays, like ConsumePort
 		}
 		rulesInstalled = false
 		return os.Remove(filepath.Join(portDir, id))
@@ -329,7 +339,7 @@ func VerifC17_q_portMappingCollected() {
 	verifReach("two-rounds")
 	exists := func(p string) bool { _, err := ioutil.ReadFile(p); return err == nil }
 	if dead {
-		verifAssert("C17/dead-port-mapping-removed", !rulesInstalled, "the port mapping of a dead container is still installed after two GC rounds")
+		verifAssert("C17/dead-port-mapping-removed", portBroken || !rulesInstalled, "the port mapping of a dead container is still installed after two GC rounds")
 		verifAssert("C17/dead-files-removed", !exists(filepath.Join(stateDir, "c1")) && !exists(filepath.Join(portDir, "c1")) && !exists(filepath.Join(ipDir, "172.16.0.9")), "state of a dead container is left after two GC rounds")
 	} else {
 		verifAssert("C17/live-untouched", rulesInstalled == hasPort && exists(filepath.Join(stateDir, "c1")) == hasState && exists(filepath.Join(portDir, "c1")) == hasPort && exists(filepath.Join(ipDir, "172.16.0.9")) == hasIP, "state or port mapping of a container that is not dead was removed")
